@@ -14,7 +14,7 @@ pub enum FiniteDomain {
 impl FiniteDomain {
     pub fn is_singleton(&self) -> bool {
         match self {
-            FiniteDomain::Interval(r) => (r.end() - r.start()).saturating_add(1) == 1,
+            FiniteDomain::Interval(r) => r.start() == r.end(),
             FiniteDomain::Sparse(v) => v.len() == 1,
         }
     }
